@@ -721,6 +721,17 @@ func (gen *Generator) GenerateCallBySymbol(sym *SexpSymbol, args []Sexp, orig Se
 	case "macexpand":
 		return gen.GenerateMacexpand(args)
 	case "syntaxQuote":
+		// a splice needs something to be spliced into: ^~@l, with the
+		// template being nothing but the splice, exploded the list onto
+		// the data stack, returned its last element and left the others
+		// there for good.
+		if len(args) == 1 && IsList(args[0]) {
+			if body, err := ListToArray(args[0]); err == nil && len(body) == 2 {
+				if sym, isSym := body[0].(*SexpSymbol); isSym && sym.name == "unquote-splicing" {
+					return fmt.Errorf("unquote-splicing (~@) must be inside a list, array or hash of the template")
+				}
+			}
+		}
 		return gen.GenerateSyntaxQuote(args)
 	case "include":
 		return gen.GenerateInclude(args)
